@@ -142,12 +142,23 @@ CLAIMED["C08"] = ("other",
     "named assumptions A-libc-tm, A-decoder-clamp (supported by C14), A-rawdata (supported by C12), A-present:* (supported by C12.R5).",
     "static analysis: abstract interpretation with symbolic linear bounds + available-facts / typestate rules (realloc publication, free-then-clear, null-guarded use) on LLVM IR (custom checker)", "DESIGN.md §3 C08")
 
+CLAIMED["C06"] = ("other",
+    "Static wiring analysis of the extraction metadata (claimed IN PART): at every call site of the arch-layer setters outside the arch layer the value passed is the header field of that "
+    "meaning - lha_arch_utime gets header->timestamp and only when it is non-zero; lha_arch_chown gets (unix_uid, unix_gid) of one header in this order under that header's UNIX_UID_GID flag; "
+    "lha_arch_chmod gets unix_perms under the UNIX_PERMS flag; lha_arch_fopen for member data gets -1 exactly when the flag is clear and the header's value otherwise; a file's time is set only "
+    "after a successful decode (behind the fclose of the output); a directory is created 0700 when permissions are recorded and 0777 otherwise - and inside the arch layer utime receives "
+    "actime = modtime = the timestamp, chown/fchown receive (uid, gid) in order, fchown precedes fchmod on the descriptor just opened. These are necessary conditions of 'every file has its "
+    "recorded modification time and, when recorded, its permission bits [and owner]'; a swapped uid/gid or a wrong flag passes the suite (which checks one or two names per archive) but changes "
+    "the operand of the call and is reported. NOT decided, stated plainly: file contents, path construction and parent directories, when directories receive their metadata relative to their "
+    "children, wildcard selection, overwrite policy, the print command, MacBinary stripping - the behavioural clauses of C06 are left to the suite.",
+    "Trusted: clang 14 front end; LLVM sroa/early-cse; irx; the Python fact engine; the flag values 0x01 / 0x02 of lib/public/lha_file_header.h as the meaning of the bits (tied to the decoders by C05 R3).",
+    "static analysis: call-site operand provenance (value sources with their path facts) and guarded-site rules on LLVM IR (custom checker)", "DESIGN.md §3 C06")
+
 NOT_APPLICABLE = {
     "C01": "decode exactness is an equality of runtime byte streams produced by table-driven Huffman state machines; no structural clause is a necessary condition the tests leave open (DESIGN §4)",
     "C02": "lock-step of the adaptive -lh1- tree with LZHUF is an equality over runtime symbol histories (tie-break order, rebuild threshold are value computations); not decidable by static analysis in reach (DESIGN §4)",
     "C03": "byte-exact decoding of -lzs-/-lz5- is runtime behaviour; the stored-method clause is decidable but already pinned by the suite (DESIGN §4)",
     "C04": "byte-exact decoding of -pm1-/-pm2- (move-to-front history, rebuild schedule, position-dependent ranges) is an equality of runtime values (DESIGN §4)",
-    "C06": "equality of an extracted filesystem tree with a model tree, glob semantics and overwrite prompts are runtime behaviour; the structural part is claimed under C10 (DESIGN §4)",
     "C16": "members(P + A) == members(A) depends on where the header falls relative to refills of the 24-byte sliding buffer: a runtime alignment property (DESIGN §4)",
     "C19": "byte-exact rendering of runtime values (ratios, widths, six-month boundary, 32-bit totals); the structural part is exactly what the recorded listings of the suite pin (DESIGN §4)",
 }
